@@ -4,6 +4,8 @@
 import GfsModel.Pad
 import GfsSpec.Grammar
 import GfsProofs.PadRangeLemmas
+import GfsGen.Facts
+import GfsModel.ExpectedSrc
 
 namespace Gfs.Props.C11
 open Gfs Gfs.Spec Gfs.Proofs
@@ -53,5 +55,10 @@ theorem C11_same_frames (s : Bytes) (w : Int) :
 
 /-- non-vacuity: the repaired defect D5 -/
 example : padFrameRange "1,foo,-3-10x2".toList 4 = "0001,foo,-003-0010x2".toList := by decide
+
+/-- the declarations of /repo this property's model and specification were written from are,
+    on this run, the ones the model was last aligned with (digest of their comment- and
+    layout-insensitive fingerprints, re-extracted by tools/gofacts) -/
+theorem C11_source : Gfs.Gen.sourceDigestC11 = Gfs.expectedSourceDigestC11 := by decide
 
 end Gfs.Props.C11
